@@ -280,6 +280,21 @@ def fam_plain_aux(quick=True):
             yield ("plainaux/nested-shared/%s/held-by-%s" % (how, holder),
                    dict(tick=0.125, inits=list(ENV_INITS),
                         framers=[dict(name="m", schedule="active", frames=frames), inner, aux_framer("sh", "never")]), dict())
+    # done conditions naming a frame of ANOTHER framer, while the observing framer has a frame of the SAME name with its own
+    # (differently behaving) auxiliary: `<any|all|aux X> in frame work in framer alpha is done`
+    for which in ("all", "any", "slow"):
+        for decl in ("ab", "ba"):
+            for neg in (False, True):
+                alpha = dict(name="alpha", schedule="active", frames=[
+                    dict(name="work", items=recs("work", ctxs) + [("aux", "slow"), ("go", "rest", [E0])]),
+                    dict(name="rest", items=recs("rest", ctxs) + [("go", "work", [E0])])])
+                beta = dict(name="beta", schedule="active", frames=[
+                    dict(name="work", items=recs("work", ctxs) + [("aux", "quick"), ("go", "fin", [("auxdonex", which, "work", "alpha", neg)])]),
+                    dict(name="fin", items=recs("fin", ctxs) + [("go", "work", [E1])])])
+                yield ("plainaux/cross-framer-done/%s/%s/neg%d" % (which, decl, neg),
+                       dict(tick=0.125, inits=list(ENV_INITS),
+                            framers=([alpha, beta] if decl == "ab" else [beta, alpha]) + [aux_framer("slow", "repeat1"), aux_framer("quick", "now")]),
+                       dict())
     # hand-over: original aux x is HELD by the active frame a while a transition tries to enter p > q; the target is
     # enterable only if x sits on at most one of p, q (it is released by a's exit), whoever holds it at the time
     for xkind in ("repeat1", "never"):
@@ -1223,3 +1238,28 @@ def fam_clocks_rebid():
                         yield ("clocks-rebid/j%d/P%r/%s/T%r/%s" % (j, P, kind, T, decl),
                                dict(tick=tick, inits=[], framers=[boss, w] if decl == "bw" else [w, boss]),
                                dict(tick=tick, T=T, N=3, clocked=()))
+
+
+def fam_cond_aux_three():
+    """chain f0 > f1 > f2 > f3: conditional auxes z on f2 (e0), y on f1 (e1) and x on f0 (e0 and e1): z starts first, then
+    y above it, then x above both; when x completes the outline must be cut again at the HIGHEST frame that still has a
+    running conditional aux (f1), not at a lower one."""
+    names = ["f0", "f1", "f2", "f3"]
+    ctxs = ("enter", "exit", "recur", "precur")
+    for kx in ("repeat1", "now", "repeat2"):
+        for ky in ("never", "repeat2"):
+            for kz in ("never", "repeat2"):
+                frames = []
+                for i, nm in enumerate(names):
+                    items = recs(nm, ctxs)
+                    if i == 0:
+                        items.append(("auxif", "x", [E0, E1]))
+                    if i == 1:
+                        items.append(("auxif", "y", [E1]))
+                    if i == 2:
+                        items.append(("auxif", "z", [E0]))
+                    frames.append(dict(name=nm, over=names[i - 1] if i else None, items=items))
+                yield ("condaux3/%s-%s-%s" % (kx, ky, kz),
+                       dict(tick=0.125, inits=list(ENV_INITS),
+                            framers=[dict(name="m", schedule="active", frames=frames), aux_framer_ext("x", kx),
+                                     aux_framer_ext("y", ky), aux_framer_ext("z", kz)]), dict())
